@@ -113,5 +113,54 @@ func genCrashCases(r *vh.Rand, tier string, n int) []string {
 	out = append(out, genBatchCrashCases(vh.NewRand(r.U64()^0xba7c), tier)...)
 	// one save with more than 2048 records in its write batch, the power cut at every
 	// FS operation (a save committed in pieces is torn between its WAL syncs)
-	return append(out, crashLine("crbig.plain", "plain", 0, "all", bigSaveOps()))
+	out = append(out, crashLine("crbig.plain", "plain", 0, "all", bigSaveOps()))
+	// log rollovers, then RemoveEntriesTo (+ compaction): every FS operation, those of
+	// tan's background deletion of obsolete files included
+	nr := 1
+	if tier == "thorough" {
+		nr = 6
+	}
+	for i := 0; i < nr; i++ {
+		ops := genRemovalWorkload(vh.NewRand(r.U64() ^ 0x4e70))
+		for _, kind := range []string{"tan", "tanmux"} {
+			out = append(out, crashLine(fmt.Sprintf("crrm%d.%s", i, kind), kind, 700, "all", ops))
+		}
+	}
+	return out
+}
+
+func genRemovalWorkload(r *vh.Rand) []op {
+	ref := newCrashRef()
+	var ops []op
+	tag := uint64(500)
+	emit := func(o op) {
+		if ref.wf(o) {
+			ops = append(ops, o)
+			ref.apply(o)
+		}
+	}
+	save := func(node int, k int) {
+		nd := &ref.nodes[node]
+		u := update{N: node, I0: nd.last() + 1, St: hstate{Term: 1, Vote: 1, Commit: nd.last()}}
+		for j := 0; j < k; j++ {
+			tag++
+			u.Ents = append(u.Ents, ent{Index: u.I0 + uint64(j), Term: 1, Tag: tag, Len: uint64(120 + r.Intn(80))})
+		}
+		emit(op{Kind: "SAVE", Ups: []update{u}})
+	}
+	for j := 0; j < 4; j++ {
+		save(0, 2+r.Intn(2))
+		if r.Bool() {
+			save(2, 1+r.Intn(2))
+		}
+	}
+	nd := &ref.nodes[0]
+	emit(op{Kind: "REMTO", N: 0, A: nd.marker + 1 + uint64(r.Intn(len(nd.ents)-1))})
+	save(0, 2)
+	nd = &ref.nodes[0]
+	if len(nd.ents) > 1 {
+		emit(op{Kind: "REMTO", N: 0, A: nd.last() - 1})
+	}
+	save(0, 1)
+	return ops
 }
